@@ -447,6 +447,58 @@ mod helpers {
 /// The result type for the lexer.
 pub type LexerResult<T> = Result<T, Error>;
 
+fn is_word(s: &str) -> bool {
+    let mut chars = s.chars();
+    match chars.next() {
+        Some(c) if c.is_ascii_lowercase() => {
+            chars.all(|c| c.is_ascii_lowercase() || c.is_ascii_digit())
+        }
+        Some(c) if c.is_ascii_uppercase() => {
+            chars.all(|c| c.is_ascii_uppercase() || c.is_ascii_digit())
+        }
+        _ => false,
+    }
+}
+
+fn is_id(s: &str) -> bool {
+    s.strip_prefix('%').unwrap_or(s).split('-').all(is_word)
+}
+
+fn is_package_name(s: &str) -> bool {
+    s.contains(':') && s.split(':').all(is_id)
+}
+
+/// Checks a name token produced by the generated lexer.
+///
+/// The generated lexer accepts a few malformed names (e.g. `foo-`, `a:b:`, or
+/// `a:a-b::c`) and may produce an identifier token for keyword text that is
+/// directly followed by a `:`; reject the former and correct the latter.
+fn check_name_token(token: Token, slice: &str) -> LexerResult<Token> {
+    let name = slice.split('@').next().unwrap_or(slice);
+    let valid = match token {
+        Token::Ident => {
+            if let Some(Ok(keyword)) = Token::lexer(slice).next() {
+                if keyword != Token::Ident {
+                    return Ok(keyword);
+                }
+            }
+            is_id(slice)
+        }
+        Token::PackageName => is_package_name(name),
+        Token::PackagePath => match name.split_once('/') {
+            Some((name, segments)) => is_package_name(name) && segments.split('/').all(is_id),
+            None => false,
+        },
+        _ => true,
+    };
+
+    if valid {
+        Ok(token)
+    } else {
+        Err(Error::UnexpectedToken)
+    }
+}
+
 /// Implements a WAC lexer.
 pub struct Lexer<'a>(SpannedIter<'a, Token>);
 
@@ -485,17 +537,25 @@ impl<'a> Lexer<'a> {
         to_source_span(span)
     }
 
+    fn checked(
+        &self,
+        (result, span): (LexerResult<Token>, logos::Span),
+    ) -> (LexerResult<Token>, SourceSpan) {
+        let result = result.and_then(|t| check_name_token(t, &self.0.source()[span.clone()]));
+        (result, to_source_span(span))
+    }
+
     /// Peeks at the next token.
     pub fn peek(&self) -> Option<(LexerResult<Token>, SourceSpan)> {
         let mut lexer = self.0.clone();
-        lexer.next().map(|(r, s)| (r, to_source_span(s)))
+        lexer.next().map(|t| self.checked(t))
     }
 
     /// Peeks at the token after the next token.
     pub fn peek2(&self) -> Option<(LexerResult<Token>, SourceSpan)> {
         let mut lexer = self.0.clone();
         lexer.next();
-        lexer.next().map(|(r, s)| (r, to_source_span(s)))
+        lexer.next().map(|t| self.checked(t))
     }
 
     /// Consumes available documentation comment tokens.
@@ -527,7 +587,8 @@ impl Iterator for Lexer<'_> {
     type Item = (LexerResult<Token>, SourceSpan);
 
     fn next(&mut self) -> Option<Self::Item> {
-        self.0.next().map(|(r, s)| (r, to_source_span(s)))
+        let next = self.0.next();
+        next.map(|t| self.checked(t))
     }
 }
 
